@@ -837,7 +837,7 @@ func (f *Frame) nilCheck(ref, pc string, pos token.Pos) {
 	if f.vc.nonNil[ref] || f.vc.nonNil[ref+"@"+pc] {
 		return
 	}
-	if f.root().con != nil && f.root().con.MayPanic {
+	if f.root().con != nil && (f.root().con.MayPanic || f.root().con.Rethrows) {
 		f.vc.assume(pc, fmt.Sprintf("(not (= %s 0))", ref))
 		f.vc.nonNil[ref+"@"+pc] = true
 		return
@@ -1166,8 +1166,33 @@ func (f *Frame) instr(ins ssa.Instruction, pc string, st *State) string {
 		st.defers = append(st.defers[:len(st.defers):len(st.defers)], rec)
 	case *ssa.RunDefers:
 		return f.runDefers(pc, st)
-	case *ssa.Range, *ssa.Next:
-		unsup("range over map/string in %s", shortFn(f.fn))
+	case *ssa.Range:
+		if _, isMap := t.X.Type().Underlying().(*types.Map); !isMap {
+			unsup("range over a string in %s", shortFn(f.fn))
+		}
+		// iteration over a Go map is abstracted: the iterator yields arbitrary (key, value) pairs, arbitrarily often
+		// (an over-approximation of every iteration order and of the map's content; termination is not provable)
+		f.vals[t] = Val{T: "0", Typ: t.Type()}
+		vc.notes = append(vc.notes, "iteration over a map in "+shortFn(f.fn)+" is abstracted to arbitrary key/value pairs (order, membership and termination are not modelled)")
+	case *ssa.Next:
+		if t.IsString {
+			unsup("range over a string in %s", shortFn(f.fn))
+		}
+		tt := t.Type().(*types.Tuple)
+		var vs []Val
+		vs = append(vs, Val{T: vc.freshConst("mapnext.ok", "Bool"), Typ: tt.At(0).Type()})
+		for i := 1; i < 3; i++ {
+			et := tt.At(i).Type()
+			if b, ok := et.(*types.Basic); ok && b.Kind() == types.Invalid {
+				vs = append(vs, Val{T: "0", Typ: types.Typ[types.Int]})
+				continue
+			}
+			c := vc.freshConst("mapnext.kv", vc.sortOf(et))
+			vc.assert(vc.typed(c, et, 2))
+			vc.assert(vc.refsBelow(c, et, st.alloc, 2))
+			vs = append(vs, Val{T: c, Typ: et})
+		}
+		f.vals[t] = Val{Tuple: vs, Typ: tt}
 	case *ssa.Go, *ssa.Send, *ssa.Select, *ssa.MakeChan:
 		unsup("concurrency primitive in %s", shortFn(f.fn))
 	default:
@@ -1180,7 +1205,7 @@ func (f *Frame) safe(pc, kind string, pos token.Pos, goal, desc string) {
 	if f.dry {
 		return
 	}
-	if f.root().con != nil && f.root().con.MayPanic {
+	if f.root().con != nil && (f.root().con.MayPanic || f.root().con.Rethrows) {
 		// the panicking execution does not return normally (recover is refused in this mode)
 		f.vc.assume(pc, goal)
 		return
@@ -1767,6 +1792,13 @@ func (f *Frame) unwindPanics() {
 			for len(st.defers) > 0 && st.defers[len(st.defers)-1].owner == f {
 				d := st.defers[len(st.defers)-1]
 				st.defers = st.defers[:len(st.defers)-1]
+				if c := d.ins.Common().StaticCallee(); c != nil {
+					if hc := f.vc.prog.contractFor(c); hc != nil && hc.Rethrows {
+						// a proved re-throwing handler: the panic goes on (with a value the handler chooses)
+						e.PanicVal = Val{}
+						continue
+					}
+				}
 				pc = f.callPre(nil, d.ins.Common(), d.args, d.fv, d.bindings, pc, st)
 			}
 			f.unwinding = nil
